@@ -3,6 +3,7 @@ import DriverEap
 import DriverOps
 import DriverKeys
 import DriverReg
+import DriverSpec
 
 /-! Model driver: one operation per input line, one result per output line
 (`ok <canonical value>` | `err` | `panic`).  Run by the Go harness, which
@@ -163,6 +164,7 @@ def handle (line : String) : String :=
     else if let some r := handleOps ts then r
     else if let some r := handleKeys ts then r
     else if let some r := handleReg ts then r
+    else if let some r := handleSpec ts then r
     else "bad-op"
   else "bad-op"
 
